@@ -24,6 +24,7 @@ type deferred struct {
 
 // State is a symbolic state: variable valuation, field heaps, path condition.
 type State struct {
+	resliced map[types.Object][2]Term // variables holding a reslice of a slice not owned by this function (see trackReslice)
 	vars   map[types.Object]Term
 	heap   map[string]Term
 	epoch  int
@@ -62,6 +63,12 @@ func (s *State) Clone() *State {
 	}
 	n.pc = append([]Term(nil), s.pc...)
 	n.defers = append([]deferred(nil), s.defers...)
+	if s.resliced != nil {
+		n.resliced = map[types.Object][2]Term{}
+		for k, v := range s.resliced {
+			n.resliced[k] = v
+		}
+	}
 	n.protected = append([]Term(nil), s.protected...)
 	n.stableCells = s.stableCells
 	n.havocs = append([]havocEvent(nil), s.havocs...)
